@@ -13,7 +13,7 @@ func gcOpts(managed bool) sysOpts {
 	return sysOpts{Managed: managed, Detect: false, NKeep: 1, MaxLevels: 4, VThreshold: 32, TableSize: 1 << 20, BaseLevelSize: 8 << 10}
 }
 
-func big(c byte) []byte { return bytes.Repeat([]byte{c}, 40) }
+func gcBig(c byte) []byte { return bytes.Repeat([]byte{c}, 40) }
 
 // let the read watermark pass everything committed so far (normal mode)
 func (g *gcHist) bumpWatermark() {
@@ -52,8 +52,8 @@ func gcScenarioF2(c *Ctx) (*gcHist, bool, error) {
 	defer g.closeAll()
 	g.keys = [][]byte{[]byte("k"), []byte("p")}
 	k := []byte("k")
-	g.write(k, big('v'))
-	g.write([]byte("p"), big('p')) // second value-log entry: file 1 is sealed
+	g.write(k, gcBig('v'))
+	g.write([]byte("p"), gcBig('p')) // second value-log entry: file 1 is sealed
 	t := g.beginAt(false)
 	g.holdGet(0, t, k)
 	g.holdGet(1, t, []byte("p"))
@@ -84,8 +84,8 @@ func gcScenarioF23(c *Ctx) (*gcHist, bool, error) {
 	defer g.closeAll()
 	g.keys = [][]byte{[]byte("k"), []byte("p")}
 	k := []byte("k")
-	g.write(k, big('v'))
-	g.write([]byte("p"), big('p'))
+	g.write(k, gcBig('v'))
+	g.write([]byte("p"), gcBig('p'))
 	g.write(k, nil) // the delete, committed before GC
 	g.bumpWatermark()
 	nf := c.nFail
@@ -114,8 +114,8 @@ func gcScenario2286(c *Ctx) (*gcHist, bool, error) {
 	defer g.closeAll()
 	g.keys = [][]byte{[]byte("k"), []byte("p")}
 	k := []byte("k")
-	g.write(k, big('v'))
-	g.write([]byte("p"), big('p'))
+	g.write(k, gcBig('v'))
+	g.write([]byte("p"), gcBig('p'))
 	g.flush()
 	nf := c.nFail
 	err = g.gcRun(1, 0, nil, func() {
@@ -147,8 +147,8 @@ func gcScenarioF26(c *Ctx) (*gcHist, bool, error) {
 	defer g.closeAll()
 	g.keys = [][]byte{[]byte("k"), []byte("p")}
 	k := []byte("k")
-	g.write(k, big('v'))
-	g.write([]byte("p"), big('p'))
+	g.write(k, gcBig('v'))
+	g.write([]byte("p"), gcBig('p'))
 	g.flush()
 	nf := c.nFail
 	err = g.gcRun(1, 0, nil, func() {
@@ -181,12 +181,12 @@ func gcScenarioF27(c *Ctx) (*gcHist, bool, error) {
 	g.keys = [][]byte{[]byte("b"), []byte("p")}
 	b := []byte("b")
 	g.mts = 1
-	g.write(b, big('1'))           // b@2
-	g.write([]byte("p"), big('p')) // p@3: file 1 sealed
+	g.write(b, gcBig('1'))           // b@2
+	g.write([]byte("p"), gcBig('p')) // p@3: file 1 sealed
 	nf := c.nFail
 	err = g.gcRun(1, 0, nil, func() {
 		g.mts = 1
-		g.write(b, big('2')) // b@2 again, other value
+		g.write(b, gcBig('2')) // b@2 again, other value
 		g.mts = 3
 	}, nil)
 	if err != nil {
@@ -206,9 +206,9 @@ func gcScenarioDeferred(c *Ctx) (*gcHist, bool, error) {
 	}
 	defer g.closeAll()
 	g.keys = [][]byte{[]byte("a"), []byte("b"), []byte("c"), []byte("d")}
-	g.write([]byte("a"), big('a'), []byte("b"), big('b'))
-	g.write([]byte("c"), big('c')) // 3 > 2: file 1 sealed
-	g.write([]byte("a"), big('A')) // a@1 is stale now
+	g.write([]byte("a"), gcBig('a'), []byte("b"), gcBig('b'))
+	g.write([]byte("c"), gcBig('c')) // 3 > 2: file 1 sealed
+	g.write([]byte("a"), gcBig('A')) // a@1 is stale now
 	g.write([]byte("d"), []byte("x"))
 	g.flush()
 	t := g.beginAt(false)
@@ -232,8 +232,8 @@ func gcScenarioDeferred(c *Ctx) (*gcHist, bool, error) {
 	// a second rewrite is refused while its file is pending: mark again
 	t2 := g.beginAt(false)
 	g.itOpen(3, t2, itOpts{})
-	g.write([]byte("c"), big('C'))
-	g.write([]byte("e"), big('e'))
+	g.write([]byte("c"), gcBig('C'))
+	g.write([]byte("e"), gcBig('e'))
 	if fs := g.sealedFiles(); len(fs) > 0 {
 		if err := g.gcRun(fs[0], 0, nil, nil, nil); err != nil {
 			return g, false, err
@@ -261,9 +261,9 @@ func gcScenarioF8(c *Ctx) (*gcHist, bool, error) {
 	defer g.closeAll()
 	g.keys = [][]byte{[]byte("a"), []byte("c"), []byte("m"), []byte("p"), []byte("x"), []byte("y"), []byte("z")}
 	m := []byte("m")
-	mv := big('m')
+	mv := gcBig('m')
 	g.write([]byte("c"), []byte("1"), m, mv)
-	g.write([]byte("p"), big('p')) // file 1 sealed: records m, p
+	g.write([]byte("p"), gcBig('p')) // file 1 sealed: records m, p
 	g.flush()
 	old := g.l0IDs()
 	for _, k := range []string{"x", "y", "z"} {
